@@ -11,6 +11,24 @@ state makes the call meaningful (documented domain): live nodes as targets,
 buffers that were not freed (except for the explicit double-free op), buses
 inside their channel range, objects created inside a failed block never used
 again.
+
+Use after free (round 7, the class the earlier workload did not reach: it
+only ever called index-based ControlBus methods and free() on freed objects).
+Objects that were freed earlier in the history are used again, as receiver
+and as argument, for every object kind:
+  busq       Bus.as_map() on live buses of both rates (checks the symbol and
+             fills the object's cache; a bus about to be freed is asked first
+             in half of the cases) and on freed ones
+  busfreed   freed bus: free() again, every index-based ControlBus method
+             (set, setn, set_at, setn_at, set_pairs, fill, clear, get, getn),
+             as_map(), the bus object given to Node.map/mapa/mapn/mapan
+  buffreed   freed Buffer: every method of the workload, the buffer as
+             destination of copy_data
+  nodefreed  freed Node (keeps its id): free, set, run, trace, release, query
+  values     `bus.as_map()` of a freed bus, freed Bus / Buffer objects among
+             the arguments of Synth(...) and Node.set (value()), map symbols
+             of live and freed buses in raw send_msg commands (/n_set, /n_setn)
+Ops flagged 'uaf_id_slot' put a freed object where a command has an id slot.
 """
 
 DEFS = ['default', 'vf_sine', 'vf_pad', 'x']
@@ -38,6 +56,8 @@ class Pool:
         self.buses = {}     # h -> {'rate', 'channels', 'state', 'owns'}
         self.k = 0
         self.created_in_block = []
+        self.uaf = False       # the op being generated uses a freed object
+        self.cached = False    # ... whose as_map() symbol had been cached
 
     def new(self, prefix):
         self.k += 1
@@ -56,6 +76,18 @@ class Pool:
                 and (rate is None or b['rate'] == rate)
                 and (owns is None or b['owns'] == owns)]
 
+    def freed_buses(self, rate=None):
+        """Buses freed by their own free() (not sub-buses of a freed parent,
+        not objects of a failed block)."""
+        return [h for h, b in self.buses.items() if b['state'] == 'freed'
+                and (rate is None or b['rate'] == rate)]
+
+    def freed_bufs(self):
+        return [h for h, b in self.bufs.items() if b['state'] == 'freed']
+
+    def freed_nodes(self):
+        return [h for h, n in self.nodes.items() if n['state'] == 'freed']
+
 
 def number(rng, kind=None):
     kind = kind or rng.choice(['int', 'f32', 'float'])
@@ -70,7 +102,27 @@ def ctl(rng):
     return rng.choice(CTL_NAMES) if rng.random() < 0.75 else rng.randint(0, 12)
 
 
+def stale_value(rng, pool):
+    """An argument built from an object that was freed earlier, or None."""
+    fb, fbuf = pool.freed_buses(), pool.freed_bufs()
+    if not fb and not fbuf:
+        return None
+    pool.uaf = True
+    if fb and (not fbuf or rng.random() < 0.7):
+        h = rng.choice(fb)
+        if rng.random() < 0.7:
+            if pool.buses[h].get('mapped'):
+                pool.cached = True
+            return {'$map': h}
+        return {'$bus': h}
+    return {'$buf': rng.choice(fbuf)}
+
+
 def value(rng, pool, depth=0, allow_seq=True):
+    if rng.random() < 0.05:
+        v = stale_value(rng, pool)
+        if v is not None:
+            return v
     r = rng.random()
     if r < 0.45:
         return number(rng)
@@ -82,7 +134,10 @@ def value(rng, pool, depth=0, allow_seq=True):
         hs = pool.live_buses()
         if hs:
             h = rng.choice(hs)
-            return {'$map': h} if rng.random() < 0.5 else {'$bus': h}
+            if rng.random() < 0.5:
+                pool.buses[h]['mapped'] = True     # the object caches its symbol
+                return {'$map': h}
+            return {'$bus': h}
     if r < 0.72:
         hs = pool.live_bufs()
         if hs:
@@ -166,6 +221,127 @@ def completion(rng, pool, fn_ok=True, index=False):
 
 def gen_op(rng, pool, in_bind, stats, multi_client, nrt=True):
     """Returns one op, updating the symbolic pool."""
+    pool.uaf = pool.cached = False
+    op = _gen_op(rng, pool, in_bind, stats, multi_client, nrt)
+    if pool.uaf:
+        stats['use_after_free'] = stats.get('use_after_free', 0) + 1
+    if pool.cached:
+        op['cached_symbol'] = True
+        stats['stale_cached_symbol'] = stats.get('stale_cached_symbol', 0) + 1
+    return op
+
+
+def _bus_method_fields(rng, m, ch):
+    """Arguments of an index-based ControlBus method for a bus of ch channels."""
+    op = {}
+    if m in ('set', 'setn'):
+        op['values'] = [number(rng) for _ in range(rng.randint(1, ch))]
+    elif m in ('set_at', 'setn_at'):
+        off = rng.randint(0, ch - 1)
+        op['offset'] = off
+        op['values'] = [number(rng) for _ in range(rng.randint(1, ch - off))]
+    elif m == 'set_pairs':
+        pr = []
+        for _ in range(rng.randint(1, 3)):
+            pr += [rng.randint(0, ch - 1), number(rng)]
+        op['pairs'] = pr
+    elif m == 'fill':
+        op.update(value=number(rng), channels=rng.randint(1, ch))
+    elif m == 'getn':
+        op['count'] = rng.choice([None, rng.randint(1, ch)])
+    return op
+
+
+def _buf_method_fields(rng, pool, m, bufs):
+    """Arguments of a Buffer method (shared by live and freed receivers)."""
+    op = {}
+    if m in ('zero', 'close', 'alloc'):
+        op['completion'] = completion(rng, pool)
+    elif m == 'alloc_read':
+        op.update(path=rng.choice(PATHS), start=rng.choice([0, 50]),
+                  frames=rng.choice([-1, 2000]), completion=completion(rng, pool))
+    elif m == 'set':
+        pr = []
+        for _ in range(rng.randint(1, 4)):
+            pr += [rng.randint(0, 64), number(rng)]
+        op['pairs'] = pr
+    elif m == 'setn':
+        a = []
+        for _ in range(rng.randint(1, 3)):
+            vals = ([number(rng) for _ in range(rng.randint(1, 6))]
+                    if rng.random() < 0.8 else number(rng))
+            a += [rng.randint(0, 64), vals]
+        op['args'] = a
+    elif m == 'fill':
+        vals = [number(rng)]
+        for _ in range(rng.randint(0, 2)):
+            vals += [rng.randint(0, 64), rng.randint(1, 16), number(rng)]
+        op.update(start=rng.randint(0, 64), frames=rng.randint(1, 64), values=vals)
+    elif m == 'get':
+        op['index'] = rng.randint(0, 64)
+    elif m == 'getn':
+        op.update(index=rng.randint(0, 64), count=rng.randint(1, 16))
+    elif m == 'read':
+        op.update(path=rng.choice(PATHS), file_start=rng.choice([0, 0, 1000]),
+                  frames=rng.choice([-1, -1, 500]), buf_start=rng.choice([0, 0, 8]),
+                  leave_open=rng.choice([False, False, True]))
+    elif m == 'read_channel':
+        op.update(path=rng.choice(PATHS), file_start=rng.choice([0, 1000]),
+                  frames=rng.choice([-1, 500]), buf_start=rng.choice([0, 8]),
+                  leave_open=rng.choice([False, True]),
+                  chans=[rng.randint(0, 3) for _ in range(rng.randint(1, 3))])
+    elif m == 'cue':
+        op.update(path=rng.choice(PATHS), start=rng.choice([0, 0, 10, 44100]),
+                  completion=completion(rng, pool))
+    elif m == 'write':
+        hdr = rng.choice(['aiff', 'wav', 'flac'])
+        op.update(path=f'/tmp/vf/out{rng.randint(0, 9)}.{hdr}', header=hdr,
+                  sample=rng.choice(['int16', 'int24', 'float']),
+                  frames=rng.choice([-1, -1, 1000]), start=rng.choice([0, 0, 64]),
+                  leave_open=rng.choice([False, False, True]),
+                  completion=completion(rng, pool))
+    elif m in ('sine1', 'cheby'):
+        op.update(amps=[number(rng, 'f32') for _ in range(rng.randint(1, 6))],
+                  **_flags(rng))
+    elif m == 'sine2':
+        n = rng.randint(1, 4)
+        op.update(freqs=[number(rng) for _ in range(n)],
+                  amps=[number(rng, 'f32') for _ in range(n)], **_flags(rng))
+    elif m == 'sine3':
+        n = rng.randint(1, 4)
+        op.update(freqs=[number(rng) for _ in range(n)],
+                  amps=[number(rng, 'f32') for _ in range(n)],
+                  phases=[number(rng, 'f32') for _ in range(n)], **_flags(rng))
+    elif m == 'gen':
+        op.update(cmd=rng.choice(['sine1', 'cheby']),
+                  args=[number(rng, 'f32') for _ in range(rng.randint(1, 4))],
+                  **_flags(rng))
+    elif m == 'normalize':
+        op.update(new_max=rng.choice([1, 0.5, 1.0, 2]),
+                  as_wavetable=rng.choice([False, True]))
+    elif m == 'copy_data':
+        op.update(dst=rng.choice(bufs), dst_start=rng.choice([0, 16]),
+                  start=rng.choice([0, 8]), num=rng.choice([-1, 128]))
+    return op
+
+
+BUF_METHODS = ['zero', 'set', 'setn', 'fill', 'get', 'getn', 'query',
+               'update_info', 'read', 'read_channel', 'write', 'close', 'sine1',
+               'sine2', 'sine3', 'cheby', 'gen', 'normalize', 'copy_data', 'cue',
+               'alloc', 'alloc_read']
+# methods that put the buffer number into a command without looking whether
+# the object still has one (the others announce BufferAlreadyFreed themselves)
+BUF_UNGUARDED = ['read', 'read_channel', 'cue', 'alloc', 'alloc_read', 'update_info']
+BUS_INDEX_METHODS = ['set', 'setn', 'set_at', 'setn_at', 'set_pairs', 'fill',
+                     'clear', 'get', 'getn']
+
+
+def _gen_op(rng, pool, in_bind, stats, multi_client, nrt=True):
+    def again():
+        # the draw does not apply to this pool: forget it and draw again
+        pool.uaf = pool.cached = False
+        return _gen_op(rng, pool, in_bind, stats, multi_client, nrt)
+
     nodes = pool.live_nodes()
     groups = pool.live_nodes(('group', 'pargroup'))
     synths = pool.live_nodes(('synth',))
@@ -176,7 +352,9 @@ def gen_op(rng, pool, in_bind, stats, multi_client, nrt=True):
         ('synth', 10), ('group', 5), ('node', 22 if nodes else 0),
         ('buffer', 7), ('buf', 14 if bufs else 0), ('bufdfree', 1.2),
         ('free_all', 0.6), ('bus', 5), ('busm', 9 if (cbs or abs_) else 0),
-        ('busfreed', 0.8), ('server', 2.5), ('basic_new', 0.7), ('subbus', 0.7),
+        ('busfreed', 2.2), ('server', 2.5), ('basic_new', 0.7), ('subbus', 0.7),
+        ('busq', 2.0 if (cbs or abs_) else 0), ('buffreed', 1.6),
+        ('nodefreed', 1.0),
     ]
     names, w = zip(*table)
     kind = rng.choices(names, w)[0]
@@ -201,7 +379,7 @@ def gen_op(rng, pool, in_bind, stats, multi_client, nrt=True):
             if ctor != 'replace' and int_ok and rng.random() < 0.15:
                 op['target'] = literal_target(rng)
             elif not nodes:
-                return gen_op(rng, pool, in_bind, stats, multi_client, nrt)
+                return again()
             else:
                 op['target'] = target(rng, pool, need_node=True)
             if ctor == 'replace':
@@ -213,6 +391,12 @@ def gen_op(rng, pool, in_bind, stats, multi_client, nrt=True):
             pool.created_in_block.append(h)
             replaced = (ctor == 'replace') or (ctor in ('init', 'new_paused') and
                                               op['action'] in ('addReplace', 'replace', 'r', 4))
+            if pool.uaf:
+                # an argument comes from a freed object: the constructor has
+                # to (stale as_map()) or may (freed object) raise, so the new
+                # object is never used and nothing counts as replaced
+                pool.nodes[h]['state'] = 'limbo'
+                replaced = False
             if replaced and isinstance(op['target'], dict) and \
                     ('$node' in op['target'] or '$int' in op['target']):
                 t = op['target'].get('$node') or op['target'].get('$int')
@@ -234,7 +418,7 @@ def gen_op(rng, pool, in_bind, stats, multi_client, nrt=True):
             if ctor != 'replace' and int_ok and rng.random() < 0.15:
                 op['target'] = literal_target(rng)
             elif not nodes:
-                return gen_op(rng, pool, in_bind, stats, multi_client, nrt)
+                return again()
             else:
                 op['target'] = target(rng, pool, need_node=True)
         h = pool.new('n')
@@ -495,7 +679,7 @@ def gen_op(rng, pool, in_bind, stats, multi_client, nrt=True):
     if kind == 'bufdfree':
         dead = [h for h, b in pool.bufs.items() if b['state'] == 'freed']
         if not dead:
-            return gen_op(rng, pool, in_bind, stats, multi_client, nrt)
+            return again()
         stats['double_free_buffer'] = True
         return {'op': 'buf', 'm': 'free', 'h': rng.choice(dead), 'completion': None}
 
@@ -517,7 +701,7 @@ def gen_op(rng, pool, in_bind, stats, multi_client, nrt=True):
     if kind == 'subbus':
         hs = [h for h in pool.live_buses(owns=True) if pool.buses[h]['channels'] > 1]
         if not hs:
-            return gen_op(rng, pool, in_bind, stats, multi_client, nrt)
+            return again()
         p = rng.choice(hs)
         pc = pool.buses[p]['channels']
         off = rng.randint(0, pc - 1)
@@ -531,47 +715,103 @@ def gen_op(rng, pool, in_bind, stats, multi_client, nrt=True):
         h = rng.choice(cbs + abs_)
         b = pool.buses[h]
         if b['rate'] == 'audio' and rng.random() > 0.3:
-            return gen_op(rng, pool, in_bind, stats, multi_client, nrt)
+            return again()
         if b['rate'] == 'audio' or rng.random() < 0.15:
             if not b['owns']:
-                return gen_op(rng, pool, in_bind, stats, multi_client, nrt)
+                return again()
+            if not b.get('mapped') and rng.random() < 0.5:
+                # the symbol is asked for (and cached by the object) while
+                # the bus is alive; the free follows later in the history
+                b['mapped'] = True
+                return {'op': 'busq', 'm': 'as_map', 'h': h}
             b['state'] = 'freed'
             for c in pool.buses.values():       # sub-buses die with the parent
                 if c.get('parent') == h:
                     c['state'] = 'dead'
             return {'op': 'busm', 'm': 'free', 'h': h}
         ch = b['channels']
-        m = rng.choice(['set', 'setn', 'set_at', 'setn_at', 'set_pairs', 'fill',
-                        'clear', 'get', 'getn'])
+        m = rng.choice(BUS_INDEX_METHODS)
         op = {'op': 'busm', 'm': m, 'h': h}
-        if m in ('set', 'setn'):
-            op['values'] = [number(rng) for _ in range(rng.randint(1, ch))]
-        elif m in ('set_at', 'setn_at'):
-            off = rng.randint(0, ch - 1)
-            op['offset'] = off
-            op['values'] = [number(rng) for _ in range(rng.randint(1, ch - off))]
-        elif m == 'set_pairs':
-            pr = []
-            for _ in range(rng.randint(1, 3)):
-                pr += [rng.randint(0, ch - 1), number(rng)]
-            op['pairs'] = pr
-        elif m == 'fill':
-            op.update(value=number(rng), channels=rng.randint(1, ch))
-        elif m == 'getn':
-            op['count'] = rng.choice([None, rng.randint(1, ch)])
+        op.update(_bus_method_fields(rng, m, ch))
         return op
+
+    if kind == 'busq':
+        h = rng.choice(cbs + abs_)          # live, sub-buses included
+        pool.buses[h]['mapped'] = True
+        return {'op': 'busq', 'm': 'as_map', 'h': h}
 
     if kind == 'busfreed':
         dead = [h for h, b in pool.buses.items() if b['state'] == 'freed']
         if not dead:
-            return gen_op(rng, pool, in_bind, stats, multi_client, nrt)
+            return again()
         h = rng.choice(dead)
-        if pool.buses[h]['rate'] == 'audio' or rng.random() < 0.5:
+        b = pool.buses[h]
+        pool.uaf = True
+        r = rng.random()
+        if r < 0.2:
             stats['double_free_bus'] = True
             return {'op': 'busm', 'm': 'free', 'h': h}
-        m = rng.choice(['set', 'setn', 'fill', 'get', 'getn', 'set_at'])
-        op = {'op': 'busm', 'm': m, 'h': h, 'values': [1.0], 'offset': 0,
-              'value': 0.5, 'channels': 1, 'count': None}
+        if r < 0.55:
+            # the symbol of a bus that owns no index any more
+            if b.get('mapped'):
+                pool.cached = True
+            return {'op': 'busq', 'm': 'as_map', 'h': h}
+        if r < 0.7 and nodes:
+            # the freed bus object given to a mapping method of a node
+            m = rng.choice(['map', 'mapn'] if b['rate'] == 'control'
+                           else ['mapa', 'mapan'])
+            a = [ctl(rng), {'$bus': h}]
+            live = cbs if b['rate'] == 'control' else abs_
+            if live and rng.random() < 0.4:
+                extra = [ctl(rng), {'$bus': rng.choice(live)}]
+                a = a + extra if rng.random() < 0.5 else extra + a
+            return {'op': 'node', 'm': m, 'h': rng.choice(nodes), 'args': a,
+                    'uaf_id_slot': True}
+        if b['rate'] == 'audio':
+            stats['double_free_bus'] = True
+            return {'op': 'busm', 'm': 'free', 'h': h}
+        m = rng.choice(BUS_INDEX_METHODS)
+        op = {'op': 'busm', 'm': m, 'h': h}
+        op.update(_bus_method_fields(rng, m, b['channels']))
+        return op
+
+    if kind == 'buffreed':
+        dead = pool.freed_bufs()
+        if not dead:
+            return again()
+        pool.uaf = True
+        if bufs and rng.random() < 0.12:
+            # a live buffer copies into a freed one
+            op = {'op': 'buf', 'm': 'copy_data', 'h': rng.choice(bufs),
+                  'uaf_id_slot': True}
+            op.update(_buf_method_fields(rng, pool, 'copy_data', dead))
+            return op
+        h = rng.choice(dead)
+        m = rng.choice(BUF_UNGUARDED if rng.random() < 0.35 else
+                       [x for x in BUF_METHODS if x not in BUF_UNGUARDED])
+        op = {'op': 'buf', 'm': m, 'h': h}
+        op.update(_buf_method_fields(rng, pool, m, bufs or dead))
+        if m in BUF_UNGUARDED:
+            op['uaf_id_slot'] = True
+        return op
+
+    if kind == 'nodefreed':
+        dead = pool.freed_nodes()
+        if not dead:
+            return again()
+        # the client object of a freed node keeps its id: same commands
+        h = rng.choice(dead)
+        m = rng.choice(['free', 'set', 'run', 'trace', 'release', 'query'])
+        op = {'op': 'node', 'm': m, 'h': h, 'on_freed_node': True}
+        if m == 'free':
+            op['send'] = True
+        elif m == 'set':
+            op['args'] = arg_pairs(rng, pool, 3)
+        elif m == 'run':
+            op['flag'] = rng.choice([True, False])
+        elif m == 'release':
+            op['time'] = rng.choice([None, 0, 2])
+        stats['freed_node_ops'] = stats.get('freed_node_ops', 0) + 1
         return op
 
     if kind == 'server':
@@ -580,7 +820,7 @@ def gen_op(rng, pool, in_bind, stats, multi_client, nrt=True):
         op = {'op': 'server', 'm': m}
         if m == 'reorder':
             if not nodes:
-                return gen_op(rng, pool, in_bind, stats, multi_client, nrt)
+                return again()
             op.update(nodes=[rng.choice(nodes) for _ in range(rng.randint(1, 4))],
                       target=target(rng, pool, int_ok=int_ok),
                       action=rng.choice(ACTIONS[:4] + ACTIONS[5:9] + [0, 1, 2, 3]))
@@ -589,7 +829,28 @@ def gen_op(rng, pool, in_bind, stats, multi_client, nrt=True):
         elif m == 'dump_osc':
             op['code'] = rng.randint(0, 3)
         elif m == 'send_msg':
-            if nodes:
+            buses = cbs + abs_
+            if nodes and buses and rng.random() < 0.5:
+                # a hand-written command that names buses by their symbols
+                fb = pool.freed_buses()
+                def sym():
+                    if fb and rng.random() < 0.15:
+                        h = rng.choice(fb)
+                        pool.uaf = True
+                        if pool.buses[h].get('mapped'):
+                            pool.cached = True
+                    else:
+                        h = rng.choice(buses)
+                        pool.buses[h]['mapped'] = True
+                    return {'$map': h}
+                if rng.random() < 0.6:
+                    op['msg'] = ['/n_set', {'$node': rng.choice(nodes)}, ctl(rng), sym()]
+                    if rng.random() < 0.3:
+                        op['msg'] += [ctl(rng), sym()]
+                else:
+                    op['msg'] = ['/n_setn', {'$node': rng.choice(nodes)}, ctl(rng), 2,
+                                 sym(), number(rng)]
+            elif nodes:
                 op['msg'] = ['/n_trace', {'$node': rng.choice(nodes)}]
             else:
                 op['msg'] = ['/status']
@@ -701,6 +962,10 @@ def gen_sync_program(rng):
             o = gen_op(rng, pool, in_bind, stats, False, False)
             # Buffer.free_all has no defined order; keep sections strictly ordered
             if o['op'] == 'free_all':
+                continue
+            # judged per method in the other shards (a command that must not
+            # exist would only be seen as a difference of whole sections here)
+            if o.get('uaf_id_slot'):
                 continue
             # a top-level /sync would be mistaken for a sync point on the wire
             if o['op'] == 'server' and o['m'] == 'send_bundle' and \
